@@ -156,3 +156,22 @@ package td
 //@   ensures  badone: result == 1
 //@   loop 1 invariant pos: a > 0 && b >= 0
 //@ end
+
+//@ func Filter
+//@   modifies nothing
+//@   ensures valid: forall k int :: 0 <= k && k < len(result) ==> result[k] != nil && result[k].Valid
+//@   ensures tags:  forall k int :: 0 <= k && k < len(all) ==> all[k].Tags == old(all[k].Tags) && all[k].Valid == old(all[k].Valid)
+//@   ensures badall: len(result) == len(all)
+//@   loop 1 invariant rng:  0 <= i && i <= $idx(1) && $idx(1) <= len(all) && len(items) == len(all)
+//@   loop 1 invariant keep: forall k int :: 0 <= k && k < i ==> items[k] != nil && items[k].Valid
+//@ end
+
+//@ func Collect
+//@   requires nn: forall k int :: 0 <= k && k < len(all) ==> all[k] != nil
+//@   modifies nothing
+//@   ensures same: forall k int :: 0 <= k && k < len(all) ==> all[k].Valid == old(all[k].Valid) && all[k].Name == old(all[k].Name)
+//@   ensures le:   len(result) <= len(all)
+//@   ensures badeq: len(result) == len(all)
+//@   loop 1 invariant rng: 0 <= $idx(1) && $idx(1) <= len(all) && len(out) <= $idx(1)
+//@   loop 1 invariant own: cap(out) == 0 || fresh(out)
+//@ end
